@@ -41,9 +41,9 @@ func (r *rng) next() uint64 {
 	z = (z ^ (z >> 27)) * 0x94d049bb133111eb
 	return z ^ (z >> 31)
 }
-func (r *rng) intn(n int) int            { return int(r.next() % uint64(n)) }
-func (r *rng) chance(p int) bool         { return r.intn(100) < p }
-func (r *rng) pick(xs []string) string   { return xs[r.intn(len(xs))] }
+func (r *rng) intn(n int) int          { return int(r.next() % uint64(n)) }
+func (r *rng) chance(p int) bool       { return r.intn(100) < p }
+func (r *rng) pick(xs []string) string { return xs[r.intn(len(xs))] }
 
 type line struct {
 	Coq    string         `json:"coq"`
@@ -342,7 +342,7 @@ func idxCase(r *rng) line {
 	// pool of selectors for this history (re-sending one exercises the "unchanged selector" path)
 	pool := make([]string, 3+r.intn(4))
 	for i := range pool {
-		pool[i] = genExpr(r, 2)
+		pool[i] = genExpr(r, r.intn(3))
 	}
 	nops := 10 + r.intn(26)
 	var ops, outs, sample, keyParts []string
@@ -356,7 +356,7 @@ func idxCase(r *rng) line {
 		switch k := r.intn(100); {
 		case k < 32:
 			i := r.intn(nItems)
-			L := genLabels(r, 3)
+			L := genLabels(r, 1+r.intn(3)) // often only some keys, so that inherited labels matter
 			np := r.intn(3)
 			if r.chance(10) {
 				np = 3
@@ -869,6 +869,7 @@ func safe(stream string, seed uint64, i int, f func() line) (l line) {
 func main() {
 	n := flag.Int("n", 100, "cases")
 	seed := flag.Uint64("seed", 1, "seed")
+	only := flag.Int("only", -1, "print only the case with this index (replay)")
 	flag.Parse()
 	logrus.SetLevel(logrus.PanicLevel)
 	r := &rng{s: *seed}
@@ -889,6 +890,13 @@ func main() {
 		default:
 			l = npCase(r)
 		}
-		_ = enc.Encode(l)
+		if l.Sample == nil {
+			l.Sample = map[string]any{}
+		}
+		l.Sample["seed"] = *seed
+		l.Sample["index"] = i
+		if *only < 0 || *only == i {
+			_ = enc.Encode(l)
+		}
 	}
 }
